@@ -112,7 +112,21 @@ namespace dsheap
         auto before = [&](double a, double b) { return lt.reverse ? a > b : a < b; };  // strict order on keys
         Heap heap(lt);
         std::map<long, double> model;             // id -> key: the live elements
-        std::map<long, Heap::Element *> handles;  // ids whose handle the "user" kept (inserted via insert())
+        // handles the "user" kept: returned by insert(), or captured through onAfterInsert for bulk inserts
+        std::map<long, Heap::Element *> handles;
+        struct Events
+        {
+            std::map<long, Heap::Element *> *handles;
+            long inserted = 0, removed = 0;
+        } events{&handles};
+        heap.onAfterInsert(
+            [](Heap::Element *e, void *arg) {
+                auto *ev = static_cast<Events *>(arg);
+                (*ev->handles)[e->data.id] = e;
+                ev->inserted++;
+            },
+            &events);
+        heap.onBeforeRemove([](Heap::Element *, void *arg) { static_cast<Events *>(arg)->removed++; }, &events);
         long nextId = 0;
         uint64_t h = 1469598103934665603ULL;
         long interiorRemovals = 0, removalsReplacementSmaller = 0, updates = 0, pops = 0, dupTops = 0;
@@ -191,7 +205,11 @@ namespace dsheap
                 Item it;
                 it.key = op.getd("key");
                 it.id = nextId++;
-                handles[it.id] = heap.insert(it);
+                Heap::Element *e = heap.insert(it);
+                if (handles.count(it.id) == 0 || handles[it.id] != e)
+                    res.violate(prop + ".insert-event-handle-mismatch",
+                                fmt("op %zu: the handle passed to the after-insert event differs from the one insert() returned", oi));
+                handles[it.id] = e;
                 model[it.id] = it.key;
             }
             else if (o == "insertv" || o == "buildfrom")
